@@ -298,9 +298,25 @@ def edited_objects(ctx):
         c = circ_from_json(j)
         edits = []
         try:
-            snapshot(c)
+            first = snapshot(c)
         except Exception:  # noqa: BLE001
             continue
+        # the same circuit as a shallow copy, a deep copy and after a pickle round trip (gate types that are equal to
+        # the module's constants without being the same objects): every entry point answers alike
+        import copy as _copy
+        import pickle as _pickle
+        for how, mk in (('copy', _copy.copy), ('deepcopy', _copy.deepcopy), ('pickle', lambda x: _pickle.loads(_pickle.dumps(x)))):
+            ctx.case(json.dumps(['copied', how, j['gates'], j['outputs']]))
+            try:
+                other = snapshot(mk(c))
+            except Exception as e:  # noqa: BLE001
+                ctx.violation('eval.copied_object_raises', f'evaluation of a {how} of the circuit raised {err_name(e)}', input={'c': j, 'how': how})
+                continue
+            if other != first:
+                key = sorted(str(x) for x in first if first.get(x) != other.get(x))[0]
+                ctx.violation('eval.copied_object', f'a {how} of the circuit answers {key} differently from the circuit itself', input={'c': j, 'how': how})
+            else:
+                ctx.count('copied:' + how)
         for step in range(rng.randint(1, 4)):
             labels = list(c.gates)
             non_in = [l for l in labels if c.get_gate(l).gate_type != G.INPUT]
